@@ -11,6 +11,7 @@ const char* const PROP_ID = "C02";
 namespace {
 // (i) archives written by the library, judged by the strict reference decoder
 void written_case(Tape& t, Stats& st, std::vector<InFile> fs) {
+	adopted_listing().clear();
 	materialise(fs, t);
 	std::vector<std::string> paths; for (auto& f : fs) paths.push_back(f.spelled);
 	for (size_t i = paths.size(); i > 1; --i) std::swap(paths[i - 1], paths[t.below(i)]);
@@ -18,6 +19,7 @@ void written_case(Tape& t, Stats& st, std::vector<InFile> fs) {
 	VolFile::CreateArchive(out, paths);
 	std::vector<uint8_t> bytes; read_file(out, bytes);
 	std::vector<refvol::Entry> ents;
+	{ bool hi = false; for (auto& f : fs) if (refvol::has_high_byte(f.name)) hi = true; refvol::Loose L; if (hi && refvol::locate(bytes, L) && L.names.size() == fs.size()) adopted_listing() = L.names; }   // names with bytes >= 0x80: the strict decoder judges the order (some consistent byte ranking), the member-by-member comparison follows the listing
 	std::string err = refvol::parse_strict(bytes, ents);
 	V_CHECK(err.empty(), "archive written by the library is not well-formed: " << err << " (" << fs.size() << " members, " << bytes.size() << " bytes, head " << hex(bytes, 40) << ")");
 	auto order = expected_order(fs);
@@ -32,7 +34,7 @@ void written_case(Tape& t, Stats& st, std::vector<InFile> fs) {
 	st.cls("written:files:" + std::to_string(std::min<size_t>(fs.size(), 8)));
 	if (!fs.empty()) { uint64_t h = 1; for (auto& f : fs) h = fnv1a(f.name.data(), f.name.size(), hmix(h, f.content.size())); st.nt(h); }
 	for (auto& f : fs) remove((f.dir + f.name).c_str());
-	remove(out.c_str());
+	remove(out.c_str()); adopted_listing().clear();
 }
 
 // a file set the creation may refuse (two names equal ignoring case, in different directories): if the library writes an archive for it
@@ -152,7 +154,7 @@ void read_case(const RefArchive& a0, Stats& st, bool sample, Tape* tp = nullptr,
 } // namespace
 
 void run_case(Tape& t, Stats& st) {
-	root();
+	root(); adopted_listing().clear();
 	if (t.below(16) == 0) { clash_case(t, st, gen_files(t, 6)); return; }
 	if (t.below(3) == 0) { auto fs = gen_files(t, g_thorough ? 30 : 10); if (st.want_sample()) st.sample("{\"library_written\":" + render(fs, "%o/w.vol") + "}"); written_case(t, st, fs); }
 	else { RefArchive ra = gen_ref(t); read_case(ra, st, true, &t); }
